@@ -176,14 +176,20 @@ def generate(seed, tier, index):
             if rf.chance(0.5):
                 # the map of the caller's live system changes through RDSystem's own methods after the kinetics functions
                 # were used on it; they follow the new map (and a copy's map is the copy's business)
-                act = rf.choice(["reset", "default", "set", "set", "copy_set"])
+                act = rf.choice(["reset", "default", "set", "set", "copy_set", "assign_set"])
                 cs, ci = rf.randint(0, m.ns - 1), rf.randint(0, m.nc - 1)
-                val = rf.choice([True, 1, 0, False, 3]) if act != "copy_set" else int(not m.chem[cs, ci])
+                val = rf.choice([True, 1, 0, False, 3]) if act in ("reset", "default", "set") else int(not m.chem[cs, ci])
                 k2 = ["kinetics", "all" if m.ns * m.nc <= 9 else entries + [[cs, ci]], True, gen_us(rf)]
                 if m.nc == 1:
                     k2 = ["kinetics", "all", True, gen_us(rf), "dxdtf"]
                 obs += [["chem_api", act, cs, ci, val], k2, ["drop_system"]]
         ops += obs
+        if rep == nrep - 1 and not coobs and not reservoir and rf.chance(0.12):
+            # the caller edits the chemostat map of ITS system after the script was built from it, then sets the script up
+            # again: the script holds its own copy of the system, the run is that of the map it was built with
+            cs, ci = rf.randint(0, m.ns - 1), rf.randint(0, m.nc - 1)
+            ops += [["chem_api", "set_after_script", cs, ci, int(not m.chem[cs, ci])]]
+            ops += C.observed_ops(rf, sp, kind, samples=False, readonly=False, post=False)
         if rep == nrep - 1 or rf.chance(0.5):
             ops.append(["finalize"])
         nmain = len(scripts) - (1 if warm else 0)
@@ -311,6 +317,18 @@ def check(case, results):
                     prev = o
             mk = m
             for ev in sorted((e_ for e_ in res.events if e_["e"] == ei), key=lambda e_: e_["i"]):
+                if ev["op"] == "chem_api" and "exc" not in ev and not ev.get("skipped") and \
+                        ep["ops"][ev["i"]][1] == "set_after_script":
+                    # the system's own map follows the edit; the script built before keeps its copy (checked by the oracles
+                    # of the set-up that follows, against the unchanged model)
+                    o_ = ep["ops"][ev["i"]]
+                    flat_ = [int(c) for c in mk.chem.ravel()]
+                    flat_[o_[2] * mk.nc + o_[3]] = int(bool(o_[4]))
+                    stats["system_edited_after_script_was_built"] = 1
+                    if [int(bool(c)) for c in ev["chem"]] != flat_:
+                        v.append({"oracle": "C03.chemostat-api", "detail": "after %s the system's map is %s, expected %s" % (
+                            o_[1:], ev["chem"], flat_)})
+                    continue
                 if ev["op"] == "chem_api" and "exc" not in ev and not ev.get("skipped"):
                     o_ = ep["ops"][ev["i"]]
                     spec2 = copy.deepcopy(mk.spec)
